@@ -358,6 +358,7 @@ func checkC06(w *World, r *Report) {
 	keyContentRule(w, r, "C06.key-content")
 	collectionReaderErrorsRule(w, r, "C06.collection-errors", w.collectionReaders())
 	textVerdictRule(w, r, "C06.text-verdict")
+	printEntryRule(w, r, "C06.print-entry")
 	// a text means the same whenever and beside whatever else it is read: the reader keeps no state
 	noGlobalWritesRule(w, r, "C06.read-stateless", "the reader", append([]*ssa.Function{w.Fn("", "READ"), w.Fn("", "READWithPreamble")}, w.pkgFuncs("reader")...))
 	// "yields a value equal to the original": the equality the round trip is judged by
@@ -689,6 +690,8 @@ func checkC16(w *World, r *Report) {
 	r.rule("C16.eof-site", "the EOF error is raised exactly where the token stream ends inside an open bracket (the nil-peek branch of the element loop) with that call's own closer")
 	tokenVerbatimRule(w, r, "C16.token-text")
 	textIntactRule(w, r, "C16.text-intact")
+	atomLastRule(w, r, "C16.atom-last")
+	valueErrorRule(w, r, "C16.value-error")
 	singleFormRule(w, r, "C16.single-form")
 	r.rule("C16.join", "the REPL joins the lines of a multi-line entry with a line break (comments end at the end of a line, so any other separator lets a comment swallow the following lines)")
 	readList := w.Fn("reader", "read_list")
@@ -1217,15 +1220,21 @@ func checkC15(w *World, r *Report) {
 	var lineParts []string
 	var lineVals []ssa.Value
 	var lineTop *ssa.BinOp
-	for _, b := range add.Blocks {
-		for _, in := range b.Instrs {
-			bo, ok := in.(*ssa.BinOp)
-			if !ok || bo.Op != token.ADD {
-				continue
-			}
-			parts := concatParts(bo)
-			if len(parts) >= 5 && len(parts) > len(lineVals) {
-				lineVals, lineTop = parts, bo
+	// (the line may be put together by a function of the package that AddPreamble calls)
+	for _, wf := range w.withPkgHelpers(add) {
+		if wf != add && (wf.Object() == nil || wf.Object().Exported() || wf.Name() == "PRINT") {
+			continue
+		}
+		for _, b := range wf.Blocks {
+			for _, in := range b.Instrs {
+				bo, ok := in.(*ssa.BinOp)
+				if !ok || bo.Op != token.ADD {
+					continue
+				}
+				parts := concatParts(bo)
+				if len(parts) >= 5 && len(parts) > len(lineVals) {
+					lineVals, lineTop = parts, bo
+				}
 			}
 		}
 	}
@@ -1244,14 +1253,30 @@ func checkC15(w *World, r *Report) {
 	// to a strings.Builder instead of being concatenated to the text so far
 	if len(lineParts) == 5 && lineParts[0] != "<acc>" {
 		toBuilder := false
-		if lineTop != nil && lineTop.Referrers() != nil {
-			for _, ref := range *lineTop.Referrers() {
-				if c, ok := ref.(*ssa.Call); ok {
-					if sc := c.Call.StaticCallee(); sc != nil && sc.Name() == "WriteString" && fnPkgPath(sc) == "strings" {
-						toBuilder = true
+		var intoBuilder func(v ssa.Value, depth int) bool
+		intoBuilder = func(v ssa.Value, depth int) bool {
+			if v == nil || v.Referrers() == nil || depth > 2 {
+				return false
+			}
+			for _, ref := range *v.Referrers() {
+				switch u := ref.(type) {
+				case *ssa.Call:
+					if sc := u.Call.StaticCallee(); sc != nil && sc.Name() == "WriteString" && fnPkgPath(sc) == "strings" {
+						return true
+					}
+				case *ssa.Return:
+					// the line is the result of a helper: what the callers do with it
+					for _, cs := range newEngine(w).callSites(u.Parent()) {
+						if cv, ok := cs.(*ssa.Call); ok && intoBuilder(cv, depth+1) {
+							return true
+						}
 					}
 				}
 			}
+			return false
+		}
+		if lineTop != nil {
+			toBuilder = intoBuilder(lineTop, 0)
 		}
 		if toBuilder {
 			lineParts = append([]string{"<acc>"}, lineParts...)
@@ -1271,6 +1296,31 @@ func checkC15(w *World, r *Report) {
 		if okThis {
 			s, ok := constString(parts[1])
 			okThis = ok && s == "\n"
+		}
+		if !okThis {
+			// the text may be accumulated in a strings.Builder throughout: the last two pieces written to it
+			// before its String() is returned are the line break and the source
+			if sc, isCall := rt[1].(ssa.Value).(*ssa.Call); isCall && sc.Call.StaticCallee() != nil && sc.Call.StaticCallee().Name() == "String" && fnPkgPath(sc.Call.StaticCallee()) == "strings" && len(sc.Call.Args) == 1 {
+				var written []ssa.Value
+				for _, b := range add.Blocks {
+					if b != sc.Block() && !b.Dominates(sc.Block()) {
+						continue
+					}
+					for _, in := range b.Instrs {
+						if in == ssa.Instruction(sc) {
+							break
+						}
+						if wc, ok := in.(*ssa.Call); ok && wc.Call.StaticCallee() != nil && wc.Call.StaticCallee().Name() == "WriteString" && fnPkgPath(wc.Call.StaticCallee()) == "strings" && wc.Call.Args[0] == sc.Call.Args[0] {
+							written = append(written, wc.Call.Args[1])
+						}
+					}
+				}
+				if n := len(written); n >= 2 && written[n-1] == ssa.Value(add.Params[0]) {
+					if s, ok := constString(written[n-2]); ok && s == "\n" {
+						okThis = true
+					}
+				}
+			}
 		}
 		if !okThis {
 			okBlank = false
@@ -1313,6 +1363,7 @@ func checkC15(w *World, r *Report) {
 	// encoding of keywords must be injective for them to come back as they were
 	keywordInjectiveRule(w, r, "C15.keyword")
 	textVerdictRule(w, r, "C15.text-verdict")
+	printEntryRule(w, r, "C15.print-entry")
 	// a text with a preamble means what it says, whatever was read before it and beside it
 	noGlobalWritesRule(w, r, "C15.read-stateless", "reading a text with its preamble", append([]*ssa.Function{w.Fn("", "READ"), w.Fn("", "READWithPreamble"), w.Fn("", "AddPreamble")}, w.pkgFuncs("reader")...))
 	keyContentRule(w, r, "C15.key-content")
